@@ -320,20 +320,24 @@ PROPS["C20"] = {
     "level": "model_checking", "engine": "kani+mir-smt", "mir": True,
     "technique": "bounded model checking (Kani/CBMC) of StringRef::write for every reference number; MIR of "
                  "Table::read_rows' integer prefix symbolically executed into SMT (z3/cvc5) for every stream length and row size",
-    "claim": "Three of the five limits. (3) For every number of columns, create_table's argument checks (MIR prefix) are passed "
+    "claim": "All five limits, each as a kernel law. (3) For every number of columns, create_table's argument checks (MIR prefix) are passed "
              "exactly for a valid name, 1..=32 columns and a primary key; 33+ columns are an error, never a panic. (1) For every reference number 1..0xFFFFFF: in two-byte mode StringRef::write returns "
              "an error exactly when the number exceeds 0xFFFF (never truncates, never panics) and otherwise round-trips; "
              "three-byte mode always writes 3 bytes. (2) For every u64 stream length and row size, Table::read_rows' prefix "
              "cannot divide by zero or overflow, allocates exactly data_length / row_size rows only when that is <= 65536 "
-             "and returns the limit error exactly when it is larger. The asymmetry (no limit on the write side), the "
-             "incref's 65,536th-string panic and name-length limits are not decided here.",
+             "and returns the limit error exactly when it is larger. (4) Insert::exec (MIR, symbolic row counts) rewrites a table only if rows-already-there + rows-of-the-batch <= the "
+             "reader's limit, checked before any batch row is stored (on the pinned tree nothing limited the write side: a 65,537-row table "
+             "was saved and then refused by the library's own reader; fixed in /repo f73032c). (5) StringPool::incref (MIR, symbolic pool "
+             "size): its only non-returning paths are the two capacity panics -- a KNOWN FINDING (the 65,536th distinct string panics; "
+             "demonstrated natively), recorded in known_findings.json, not repaired. Name-length limits: C04's create_table gate and "
+             "C11's is_valid law; update_rows cannot add rows.",
     "note": "Trusted: Kani/CBMC; MIR translator, models of seek/rewind/sum (fresh integers), z3/cvc5. create_table's column "
             "limit, incref's 65,536th-string panic (needs a 65,535-entry pool) and name-length limits need Package/cfb.",
     "kani": [H(_CELLS + "c20_stringref_width", timeout=300, symbolic="reference number 1..0xFFFFFF, width flag", bounds="unwind 6",
                functions=["stringpool::StringRef::write", "stringpool::StringRef::read"]),
              H(_CELLS + "c01_cell_roundtrip_str_short", timeout=300, symbolic="string cell value, two-byte references", bounds="unwind 6", functions=_F_CELL)],
     "bounds": "all 24-bit reference numbers",
-    "outside": "32-column limit, row-count limit on the write side, pool-size limit (panic in incref), name-length limits",
+    "outside": "limits reached incrementally across reopen cycles (each law is one call from an arbitrary count), round trip of tables at the limit (native replay only)",
     "assumptions": _KASSUME,
 }
 
